@@ -226,6 +226,28 @@ def check_similarity(led):
                 led.ok(name, func)
 
 
+class _Premises(object):
+    """ledger view that keeps only the obligations whose name contains one of the given fragments (premises shared with C01)"""
+    def __init__(self, led, keep):
+        self._led, self._keep = led, keep
+
+    def __getattr__(self, name):
+        f = getattr(self._led, name)
+        if name in ('ok', 'fail', 'undecide'):
+            def g(oname, *a, **kw):
+                if any(k in oname for k in self._keep):
+                    return f(oname, *a, **kw)
+            return g
+        return f
+
+
+def check_exchange_premise(led):
+    """the axis-exchange clause maps the laminate of one description onto the other by turning every ply by 90 degrees:
+    Q(theta + 90) is the axis-exchanged Q(theta) -- proved on the real Lamina.rebuild (same obligations as in C01)"""
+    from . import c01
+    c01.part_lamina(_Premises(led, ('/rotate-90[', '/mirror-angle[')))
+
+
 def body(led):
     led.assume('C14: eigenvalue statements follow from the matrix identities through the eigen-solver contracts (C05/C06) and the scaling argument (cited, not machine-checked)')
     led.assume('C14: "tends to the flat plate" is read as: the difference of every entry is a sum of terms with a negative power of r')
@@ -234,6 +256,7 @@ def body(led):
     check_cyl_minus_plate(led)
     check_cone_zero(led)
     check_exchange(led)
+    check_exchange_premise(led)
     check_similarity(led)
     from . import c14_num
     c14_num.body(led)
